@@ -237,6 +237,9 @@ class TStr(Type):
             return z3.IntVal(-1)
         if isinstance(v, SStr):
             return v.t
+        if isinstance(v, SList) and type(v.elem).__name__ == "TChar":
+            from .chars import text_id
+            return text_id(v)
         raise Unsupported(f"cannot use {v!r} as {self.name}")
 
     def invariant(self, v):
